@@ -172,7 +172,7 @@ CHECKS = {
                     "against the fake broker's own RFC 4616 / RFC 5802 server; rapid adds generated user names and passwords (printable ASCII with ',' '=' and escape look-alikes, RFC 4013 cases with known prepared form). "
                     "Per connection the broker journal decides: only ApiVersions/SaslHandshake/SaslAuthenticate (or raw tokens) before the broker's verdict ok, nothing after a failed step, "
                     "the call returns an error and the client closes every connection, framing follows the handshake version, the exchange completes iff credentials are right and the server signature verifies, "
-                    "and the real request after a completed exchange is answered from the model. Dialer entries also with an address whose port is a service name (whether such a dial succeeds is the library's choice; nothing but the exchange may reach the broker, and a failed dial closes its connection)."),
+                    "and the real request after a completed exchange is answered from the model. Dialer entries also with an address whose port is a service name (whether such a dial succeeds is the library's choice; nothing but the exchange may reach the broker, and a failed dial closes its connection). TestLegs: a user-written mechanism of 1-12 round trips (the sasl.Mechanism interface is public) through every entry point, with right and wrong credentials, against a server-side counterpart in the fake."),
         level_note=("faults apply to every connection of a case alike; stalls (no response) are not injected because Conn has no deadline during the dial-time exchange; "
                     "refusing a low PBKDF2 iteration count is the SCRAM client library's policy and is only observed; a ConsumerGroup built directly is covered through the Dialer it uses"),
         rule=("case = (mechanism, advertised SaslHandshake and SaslAuthenticate versions, entry point, fault, error code, user, password, wrong password, decoy accounts, iterations, partition range); "
@@ -184,6 +184,7 @@ CHECKS = {
         units=[
             dict(run="TestProduct", checks=None, timeout=600),
             dict(run="TestGenerated", checks_quick=1500, checks_thorough=12000, shards_quick=2, shards_thorough=8, timeout=1200),
+            dict(run="TestLegs", checks_quick=300, checks_thorough=4000, shards_quick=1, shards_thorough=4, timeout=600),
         ],
     ),
     "C11": dict(
